@@ -256,6 +256,9 @@ func (c *End) StallOutgoingAt(n int) { c.wr.stallAt = n }
 func (c *End) StallOutgoing()   { c.wr.stallAt = c.wr.total }
 func (c *End) UnstallOutgoing() { c.wr.stallAt = -1 }
 
+// WriteOffset is the number of bytes this end has written so far.
+func (c *End) WriteOffset() int { return c.wr.total }
+
 // Inject appends bytes to this end's outgoing stream without a scheduling point
 // (used by drivers that already hold the baton at a point of their own).
 func (c *End) Inject(p []byte) {
